@@ -14,20 +14,36 @@ import Generated.Grammar
 
 open Measured
 
+/-- Correctly rounded (round-half-even) conversion of an exact rational to binary64, as
+    Python's `float("<decimal literal>")` and `float(Decimal)` do; subnormals and overflow to
+    infinity included. -/
+def ratToFloat (r : Rat) : Float :=
+  if r.num == 0 then 0.0 else
+  let n := r.num.natAbs
+  let d := r.den
+  let quot (e : Int) : Nat × Nat × Nat :=
+    let sh : Int := 52 - e
+    let num := if sh ≥ 0 then n <<< sh.toNat else n
+    let den := if sh ≥ 0 then d else d <<< (-sh).toNat
+    (num / den, num % den, den)
+  let e0 : Int := (n.log2 : Int) - (d.log2 : Int)
+  let e : Int := if (quot e0).1 < 2 ^ 52 then e0 - 1 else e0
+  let bits : Nat :=
+    if e > 1023 then 0x7ff0000000000000
+    else
+      let e' : Int := if e < -1022 then -1022 else e
+      let (q, rem, den) := quot e'
+      let q := if 2 * rem > den || (2 * rem == den && q % 2 == 1) then q + 1 else q
+      if e < -1022 then q else ((e' + 1023).toNat <<< 52) + (q - 2 ^ 52)
+  let bits := if bits > 0x7ff0000000000000 then 0x7ff0000000000000 else bits
+  let x := Float.ofBits (UInt64.ofNat bits)
+  if r.num < 0 then -x else x
+
 instance : FloatLike Float where
   ofInt := Float.ofInt
   ofBits b := Float.ofBits (UInt64.ofNat b)
   toRat x := ratOfBits x.toBits.toNat
-  ofRat r :=
-    -- numerators/denominators of float-contaminated Decimals have thousands of bits: drop the
-    -- low bits of both (keeping >= 900) before the conversion, which would otherwise overflow
-    let nb := r.num.natAbs.log2
-    let db := r.den.log2
-    let sh := (max nb db) - 900
-    let n := r.num.natAbs >>> sh
-    let d := r.den >>> sh
-    let q := Float.ofNat n / Float.ofNat d
-    if r.num < 0 then -q else q
+  ofRat := ratToFloat
   sqrt := Float.sqrt
   log := Float.log
   rpow := Float.pow
@@ -41,11 +57,15 @@ namespace Drv
 def hashStr (s : String) : Nat :=
   s.toUTF8.foldl (fun h b => (h * 1000003 + b.toNat + 1) % 2305843009213693951) 7
 
-def showInt (i : Int) : String := toString i
+/-- Decimal text; beyond 1000 digits hexadecimal with an `H` mark (Python refuses int->str
+    past 4300 digits, so the harness prints the same form). -/
+def showInt (i : Int) : String :=
+  if i.natAbs < 10 ^ 1000 then toString i
+  else (if i < 0 then "-" else "") ++ "H" ++ String.ofList (Nat.toDigits 16 i.natAbs)
 
 def showDim (d : Dim) : String := ",".intercalate (d.map showInt)
-def showPfx (p : Pfx) : String := s!"{p.base}:{p.exp}"
-def showFactors (fs : Factors) : String := ",".intercalate (fs.map (fun f => s!"{f.1}:{f.2}"))
+def showPfx (p : Pfx) : String := s!"{p.base}:{showInt p.exp}"
+def showFactors (fs : Factors) : String := ",".intercalate (fs.map (fun f => s!"{f.1}:{showInt f.2}"))
 
 def showUnitRec (s : St) (i : Nat) (u : UnitRec) : String :=
   s!"{showPfx u.pfx}|{showFactors u.factors}|{showDim u.dim}|{";".intercalate (s.namesOf i)}|{";".intercalate (s.symsOf i)}"
@@ -78,9 +98,9 @@ def parseHex (s : String) : Option Nat :=
       else none) (some 0)
 
 def showMag : Mag Float → String
-  | .int i => s!"i:{i}"
+  | .int i => s!"i:{showInt i}"
   | .flt x => s!"f:{hex16 x.toBits.toNat}"
-  | .dec r => s!"d:{r.num}/{r.den}"
+  | .dec r => s!"d:{showInt r.num}/{showInt (r.den : Int)}"
 
 def parseMag (s : String) : Option (Mag Float) :=
   if s.startsWith "i:" then (s.drop 2).toString.toInt?.map .int
